@@ -23,11 +23,11 @@ import (
 var spec = &iso8583.MessageSpec{
 	Name: "race",
 	Fields: map[int]field.Field{
-		0: field.NewString(&field.Spec{Length: 4, Description: "MTI", Enc: encoding.ASCII, Pref: prefix.ASCII.Fixed}),
-		1: field.NewBitmap(&field.Spec{Description: "Bitmap", Enc: encoding.Binary, Pref: prefix.Binary.Fixed}),
-		2: field.NewString(&field.Spec{Length: 19, Description: "PAN", Enc: encoding.ASCII, Pref: prefix.ASCII.LL}),
-		3: field.NewNumeric(&field.Spec{Length: 12, Description: "Amount", Enc: encoding.ASCII, Pref: prefix.ASCII.LL}),
-		4: field.NewString(&field.Spec{Length: 20, Description: "Text", Enc: encoding.ASCII, Pref: prefix.ASCII.LL}),
+		0:  field.NewString(&field.Spec{Length: 4, Description: "MTI", Enc: encoding.ASCII, Pref: prefix.ASCII.Fixed}),
+		1:  field.NewBitmap(&field.Spec{Description: "Bitmap", Enc: encoding.Binary, Pref: prefix.Binary.Fixed}),
+		2:  field.NewString(&field.Spec{Length: 19, Description: "PAN", Enc: encoding.ASCII, Pref: prefix.ASCII.LL}),
+		3:  field.NewNumeric(&field.Spec{Length: 12, Description: "Amount", Enc: encoding.ASCII, Pref: prefix.ASCII.LL}),
+		4:  field.NewString(&field.Spec{Length: 20, Description: "Text", Enc: encoding.ASCII, Pref: prefix.ASCII.LL}),
 		55: field.NewComposite(compSpec),
 		70: field.NewString(&field.Spec{Length: 10, Description: "High", Enc: encoding.ASCII, Pref: prefix.ASCII.LL}),
 	},
